@@ -99,22 +99,6 @@ def r06_1(F, q, R, spec):
 
 
 # ------------------------------------------------------------------------------------ R06.2
-def _single_insert(R, rid, what, b, nz, lid):
-    """The unique `insert` on map local `lid`; any other mutation of it is unrecognised."""
-    muts = U.mutations_of(b["body"], lid)
-    ins = [m for m in muts if m.get("k") == "mcall" and m["name"] == "insert"]
-    other = [m for m in muts if m not in ins and not (m.get("k") == "mcall" and m["name"] in ("len", "is_empty"))]
-    for m in other:
-        R.unrecognised(rid, what, "mutation of the table other than one insert: %s" % H.render(m), m.get("sp"))
-    if len(ins) != 1:
-        R.inst(rid, "%s:single-insert" % what, False, sp=b["sp"], expect="exactly one insert", got=len(ins))
-        return None
-    init = nz.init_term(lid)
-    R.inst(rid, "%s:starts-empty" % what, init == ("call", "IndexMap::new", ()), sp=b["sp"], expect="IndexMap::new()",
-           got=U.show(init) if init else None)
-    return ins[0]
-
-
 def _cmp(R, rid, key, exp, act, sp, detail=None):
     R.inst(rid, key, exp == act, sp=sp, expect=U.show(exp), got=U.show(act) if act is not None else None, detail=detail)
 
@@ -130,18 +114,13 @@ def r06_2(q, R, spec):
         nz = U.Norm(b, sa["params"])
         env = U.build_env(sa["params"], sa["let"])
         res = U.result_term(nz)
-        lid = None
-        if res and res[0] == "struct" and res[1] == "ARemapperImpl":
-            t = dict(res[2]).get("classes")
-            if t and t[0] == "local":
-                lid = t[1]
-        if R.anchor(rid, "remapper_a returns ARemapperImpl { classes: <local table> }", lid is not None, b["sp"]):
-            ins = _single_insert(R, rid, "remapper_a.classes", b, nz, lid)
-            if ins is not None:
-                _cmp(R, rid, "remapper_a.classes:key", U.parse(sa["classes"]["key"], env), nz.term(ins["args"][0]), ins["sp"],
-                     "the key is the class name in the `from` namespace")
-                _cmp(R, rid, "remapper_a.classes:value", U.parse(sa["classes"]["value"], env), nz.term(ins["args"][1]), ins["sp"],
-                     "the value is the class name in the `to` namespace")
+        t = dict(res[2]).get("classes") if res and res[0] == "struct" and res[1] == "ARemapperImpl" else None
+        if R.anchor(rid, "remapper_a returns ARemapperImpl { classes: <table> }", t is not None, b["sp"]):
+            ents = U.table_entries(R, rid, "remapper_a.classes", b, nz, t)
+            if ents:
+                k, v, sp = ents[0]
+                _cmp(R, rid, "remapper_a.classes:key", U.parse(sa["classes"]["key"], env), k, sp, "the key is the class name in the `from` namespace")
+                _cmp(R, rid, "remapper_a.classes:value", U.parse(sa["classes"]["value"], env), v, sp, "the value is the class name in the `to` namespace")
     # ---- remapper_b
     sb = spec["tables"]["remapper_b"]
     b = q.fn("remapper_b")
@@ -149,40 +128,36 @@ def r06_2(q, R, spec):
         nz = U.Norm(b, sb["params"])
         env = U.build_env(sb["params"], sb["let"])
         res = U.result_term(nz)
-        lid = None
+        t = None
         if res and res[0] == "struct" and res[1] == "BRemapperImpl":
             rf = dict(res[2])
             t = rf.get("classes")
-            if t and t[0] == "local":
-                lid = t[1]
             _cmp(R, rid, "remapper_b.result:inheritance", U.parse(sb["result.inheritance"], env), rf.get("inheritance"), b["sp"])
-        if R.anchor(rid, "remapper_b returns BRemapperImpl { classes: <local table>, .. }", lid is not None, b["sp"]):
-            ins = _single_insert(R, rid, "remapper_b.classes", b, nz, lid)
+        if R.anchor(rid, "remapper_b returns BRemapperImpl { classes: <table>, .. }", t is not None, b["sp"]):
+            ents = U.table_entries(R, rid, "remapper_b.classes", b, nz, t)
             sub = {}
-            if ins is not None:
-                _cmp(R, rid, "remapper_b.classes:key", U.parse(sb["classes"]["key"], env), nz.term(ins["args"][0]), ins["sp"],
-                     "the key is the class name in the `from` namespace")
-                v = nz.term(ins["args"][1])
-                if R.anchor(rid, "remapper_b class entry is a BRemapperClass literal", v[0] == "struct" and v[1] == "BRemapperClass", ins["sp"]):
+            if ents:
+                k, v, sp = ents[0]
+                _cmp(R, rid, "remapper_b.classes:key", U.parse(sb["classes"]["key"], env), k, sp, "the key is the class name in the `from` namespace")
+                if R.anchor(rid, "remapper_b class entry is a BRemapperClass literal", v[0] == "struct" and v[1] == "BRemapperClass", sp):
                     vf = dict(v[2])
-                    _cmp(R, rid, "remapper_b.classes:value.name", U.parse(sb["classes"]["value.name"], env), vf.get("name"), ins["sp"],
+                    _cmp(R, rid, "remapper_b.classes:value.name", U.parse(sb["classes"]["value.name"], env), vf.get("name"), sp,
                          "the entry's name is the class name in the `to` namespace")
                     for tbl in ("fields", "methods"):
-                        t = vf.get(tbl)
-                        if R.anchor(rid, "BRemapperClass.%s is a local table" % tbl, bool(t) and t[0] == "local", ins["sp"]):
-                            sub[tbl] = t[1]
-            for tbl, tl in sub.items():
-                mi = _single_insert(R, rid, "remapper_b.%s" % tbl, b, nz, tl)
-                if mi is None:
+                        if R.anchor(rid, "BRemapperClass.%s present" % tbl, vf.get(tbl) is not None, sp):
+                            sub[tbl] = vf[tbl]
+            for tbl, tt in sub.items():
+                me = U.table_entries(R, rid, "remapper_b.%s" % tbl, b, nz, tt)
+                if not me:
                     continue
-                for side, arg in (("key", mi["args"][0]), ("value", mi["args"][1])):
-                    t = nz.term(arg)
+                mk_, mv_, msp = me[0]
+                for side, t2 in (("key", mk_), ("value", mv_)):
                     if not R.anchor(rid, "remapper_b.%s %s is TupleKey(name, desc)" % (tbl, side),
-                                    t[0] == "ctor" and t[1] == "TupleKey" and len(t[2]) == 2, mi["sp"]):
+                                    t2[0] == "ctor" and t2[1] == "TupleKey" and len(t2[2]) == 2, msp):
                         continue
-                    _cmp(R, rid, "remapper_b.%s:%s.name" % (tbl, side), U.parse(sb[tbl][side + ".name"], env), t[2][0], mi["sp"],
+                    _cmp(R, rid, "remapper_b.%s:%s.name" % (tbl, side), U.parse(sb[tbl][side + ".name"], env), t2[2][0], msp,
                          "%s side = `%s` namespace" % (side, "from" if side == "key" else "to"))
-                    _cmp(R, rid, "remapper_b.%s:%s.desc" % (tbl, side), U.parse(sb[tbl][side + ".desc"], env), t[2][1], mi["sp"],
+                    _cmp(R, rid, "remapper_b.%s:%s.desc" % (tbl, side), U.parse(sb[tbl][side + ".desc"], env), t2[2][1], msp,
                          "descriptor of the first namespace translated into the `%s` namespace" % ("from" if side == "key" else "to"))
     # ---- the member key: stored TupleKey vs requested TupleReq
     mk = spec["member_key"]
@@ -221,10 +196,6 @@ def r06_2(q, R, spec):
 
 
 # ------------------------------------------------------------------------------------ R06.3
-def _returns(root):
-    return [n for n in H.walk(root) if n.get("k") == "ret" and not H.is_err_exit(n)]
-
-
 def r06_3(q, R, spec):
     rid = "R06.3"
     R.rule(rid, "map_field_fail / map_method_fail: own table first, then get_super_classes in the provider's iteration order (no "
@@ -240,78 +211,61 @@ def r06_3(q, R, spec):
         fn = m["fn"]
         nz = U.Norm(b, ss["params"])
         env = U.build_env(ss["params"], ss["let"])
-        sub = lambda s: s.replace("{table}", m["table"]).replace("{struct}", m["struct"]).replace("{fn}", fn)
-        env["own"] = U.parse(sub(ss["own_lookup"]), env)
-        env["supers"] = U.parse(sub(ss["supers"]), env)
+        sub = lambda x: x.replace("{table}", m["table"]).replace("{struct}", m["struct"]).replace("{fn}", fn)
+        env["own"] = own = U.parse(sub(ss["own_lookup"]), env)
+        env["supers"] = supers = U.parse(sub(ss["supers"]), env)
         own_answer = U.parse(sub(ss["own_answer"]), env)
         super_answer = U.parse(sub(ss["super_answer"]), env)
-        order = U.order_index(b["body"])
-        rets = _returns(b["body"])
-        fors = [n for n in H.walk(b["body"]) if n.get("k") == "for"]
-        loops = [n for n in H.walk(b["body"]) if n.get("k") == "loop"]
-        own_rets = [r for r in rets if nz.term(r) == ("ret", own_answer)]
-        sup_rets = [r for r in rets if nz.term(r) == ("ret", super_answer)]
-        other = [r for r in rets if r not in own_rets and r not in sup_rets]
-        for r in other:
-            R.inst(rid, "%s:unexpected-return" % fn, False, sp=r["sp"], got=U.show(nz.term(r)),
-                   expect="only the own-table answer and the first super-class answer are returned early")
-        R.inst(rid, "%s:own-answer" % fn, len(own_rets) == 1, sp=b["sp"], expect="return " + U.show(own_answer),
-               got=[U.show(nz.term(r)) for r in rets],
+        act = U.result_term(nz)      # the whole decision structure: early returns and the search loop are folded into case / find_map
+        sp = b["sp"]
+        if not R.anchor(rid, "%s: value of the function understood" % fn, act is not None, sp):
+            continue
+        shown = U.show(act)
+        # first decision
+        top_is_own = act[0] == "case" and act[1] == own and set(dict(act[2])) == {"Some", "_"}
+        wrapped = act[0] in ("case", "omap") and act[1] == env["entry"]
+        R.inst(rid, "%s:own-table-first" % fn, top_is_own, sp=sp, expect="case(%s, Some: <answer>, _: <super-class search>)" % U.show(own), got=shown,
+               detail="the own table is consulted (and answers) before any super class")
+        arms = dict(act[2]) if act[0] == "case" else {}
+        if wrapped and not top_is_own:
+            inner = dict(act[2]).get("Some") if act[0] == "case" else act[2]
+            if inner and inner[0] == "case" and inner[1] == own:
+                arms = dict(inner[2])
+        R.inst(rid, "%s:own-answer" % fn, arms.get("Some") == own_answer, sp=sp, expect=U.show(own_answer),
+               got=U.show(arms["Some"]) if arms.get("Some") else shown,
                detail="the owner's own entry answers with the to-side name and descriptor of the entry found for (name, desc)")
-        R.inst(rid, "%s:super-answer" % fn, len(sup_rets) == 1, sp=b["sp"], expect="return " + U.show(super_answer),
-               got=[U.show(nz.term(r)) for r in rets],
+        rest = arms.get("_")
+        R.inst(rid, "%s:supers-searched-when-own-misses" % fn, rest is not None and rest != U.NONE and U.contains(rest, supers), sp=sp,
+               got=U.show(rest) if rest else shown)
+        R.inst(rid, "%s:supers-searched-when-owner-unmapped" % fn, top_is_own and not wrapped, sp=sp,
+               expect="the super-class search does not depend on `self.classes.get(owner)` being Some", got=shown,
+               detail="an owner (or an intermediate super class) that has no entry in the mapping set must still pass the "
+                      "question on to its super classes; otherwise an inherited, renamed member keeps its old name")
+        # the search: omap(supers, find_map(supers, lam(recursion)))
+        finds = [t for t in U.subterms(act) if t[0] == "call" and t[1] in ("find_map", "find", "position")]
+        R.inst(rid, "%s:single-loop" % fn, len(set(finds)) == 1, sp=sp, got=[U.show(t) for t in set(finds)])
+        fm = rest[2] if rest and rest[0] == "omap" and rest[1] == supers else None
+        is_fm = bool(fm) and fm[0] == "call" and fm[1] == "find_map" and len(fm[2]) == 2 and fm[2][1][0] == "lam"
+        R.inst(rid, "%s:super-order" % fn, is_fm and fm[2][0] == supers, sp=sp, expect=U.show(supers), got=U.show(fm[2][0]) if is_fm else (U.show(rest) if rest else shown),
+               detail="the loop iterates the provider's IndexSet itself: declaration order, nothing reversed/sorted/skipped")
+        R.inst(rid, "%s:super-answer" % fn, is_fm and fm[2][1][1] == super_answer, sp=sp, expect=U.show(super_answer),
+               got=U.show(fm[2][1][1]) if is_fm else (U.show(rest) if rest else shown),
                detail="the recursion asks the super class for the same name and descriptor and its answer is returned unchanged")
-        R.inst(rid, "%s:single-loop" % fn, len(fors) == 1 and not loops, sp=b["sp"], got="%d for, %d loop" % (len(fors), len(loops)))
-        if len(fors) == 1:
-            it = nz.term(fors[0]["iter"])
-            R.inst(rid, "%s:super-order" % fn, it == env["supers"], sp=fors[0]["sp"], expect=U.show(env["supers"]), got=U.show(it),
-                   detail="the loop iterates the provider's IndexSet itself: declaration order, nothing reversed/sorted/skipped")
-            if len(sup_rets) == 1:
-                inside = any(x is sup_rets[0] for x in H.walk(fors[0]["body"]))
-                conds = U.cond_terms(nz, fors[0]["body"], sup_rets[0]) if inside else []
-                R.inst(rid, "%s:first-answer-wins" % fn, inside and conds == [("iflet", super_answer, True)], sp=sup_rets[0]["sp"],
-                       expect="inside the loop, guarded only by `if let Some(..) = <recursive call>?`", got=U.show_conds(conds),
-                       detail="early return at the first super class that answers")
-            if len(own_rets) == 1:
-                before = order[id(own_rets[0])] < order[id(fors[0])] and not any(x is own_rets[0] for x in H.walk(fors[0]))
-                conds = U.cond_terms(nz, b["body"], own_rets[0])
-                want = [("iflet", env["entry"], True), ("iflet", env["own"], True)]
-                R.inst(rid, "%s:own-table-first" % fn, before and conds == want, sp=own_rets[0]["sp"],
-                       expect=U.show_conds(want) + ["before the super-class loop"], got=U.show_conds(conds) + ["before loop" if before else "NOT before loop"],
-                       detail="the own table is consulted (and answers) before any super class")
-                # the loop must not depend on the own lookup having succeeded
-                lconds = U.cond_terms(nz, b["body"], fors[0])
-                R.inst(rid, "%s:supers-searched-when-own-misses" % fn,
-                       not any(t == env["own"] and pol for _, t, pol in lconds), sp=fors[0]["sp"], got=U.show_conds(lconds))
-            # ... nor on the owner having a mapping entry at all: an owner without an entry declares nothing itself, so the
-            # member can only come from a super type
-            lconds = U.cond_terms(nz, b["body"], fors[0])
-            R.inst(rid, "%s:supers-searched-when-owner-unmapped" % fn,
-                   not any(t == env["entry"] and pol for _, t, pol in lconds), sp=fors[0]["sp"],
-                   expect="the super-class loop is not nested in `if let Some(class) = self.classes.get(owner)`", got=U.show_conds(lconds),
-                   detail="an owner (or an intermediate super class) that has no entry in the mapping set must still pass the "
-                          "question on to its super classes; otherwise an inherited, renamed member keeps its old name")
-        # fallthrough value
-        tail = H.peel(b["body"]).get("tail")
-        tt = nz.term(tail) if tail else None
-        R.inst(rid, "%s:not-found" % fn, tt == U.parse(ss["not_found"], env), sp=b["sp"], expect=ss["not_found"], got=U.show(tt) if tt else None)
+        R.inst(rid, "%s:first-answer-wins" % fn, is_fm, sp=sp, expect="omap(%s, find_map(.., ..))" % U.show(supers), got=U.show(rest) if rest else shown,
+               detail="the first super class that answers ends the search (early return / find_map), with that answer")
+        R.inst(rid, "%s:not-found" % fn, is_fm and U.parse(ss["not_found"], env) == U.NONE, sp=sp,
+               detail="when neither the own table nor a super class answers the result is None (no other default appears in the value)")
     # Vec<S>
     vs = ss["vec_provider"]
     b = q.fn("get_super_classes", impl_ty="alloc::vec::Vec")
     if R.anchor(rid, "impl SuperClassProvider for Vec<S>", b) and R.anchor(rid, "Vec<S>::get_super_classes parameters", len(b["params"]) == 2, b["sp"]):
         nz = U.Norm(b, vs["params"])
         env = U.build_env(vs["params"])
-        rets = _returns(b["body"])
-        fors = [n for n in H.walk(b["body"]) if n.get("k") == "for"]
-        ans = U.parse(vs["answer"], env)
-        ok = (len(fors) == 1 and len(rets) == 1 and nz.term(fors[0]["iter"]) == U.parse(vs["over"], env)
-              and nz.term(rets[0]) == ("ret", ans) and any(x is rets[0] for x in H.walk(fors[0]["body"]))
-              and U.cond_terms(nz, fors[0]["body"], rets[0]) == [("iflet", ans, True)])
-        R.inst(rid, "Vec<S>:first-provider-wins", ok, sp=b["sp"], expect="for i in self { if let Some(x) = i.get_super_classes(class)? { return Ok(Some(x)) } }",
-               got=[U.show(nz.term(r)) for r in rets] + [U.show(nz.term(f["iter"])) for f in fors])
-        tail = H.peel(b["body"]).get("tail")
-        tt = nz.term(tail) if tail else None
-        R.inst(rid, "Vec<S>:not-found", tt == U.parse(vs["not_found"], env), sp=b["sp"], expect=vs["not_found"], got=U.show(tt) if tt else None)
+        act = U.result_term(nz)
+        want = ("call", "find_map", (U.parse(vs["over"], env), ("lam", U.parse(vs["answer"], env))))
+        R.inst(rid, "Vec<S>:first-provider-wins", act == want, sp=b["sp"], expect=U.show(want), got=U.show(act) if act else None)
+        R.inst(rid, "Vec<S>:not-found", act is not None and act[0] == "call", sp=b["sp"], got=U.show(act) if act else None,
+               detail="no default other than None")
     # JarSuperProv::remap
     sp_ = spec["super_prov_remap"]
     b = q.fn("remap", impl_ty="quill::remapper::JarSuperProv")
@@ -386,7 +340,7 @@ def r06_4(q, R, spec):
     R.inst(rid, "copy-every-char", nz.term(pj["args"][0]) == U.parse(sm["copy_char"], env) and c == loop_cond, sp=pj["sp"],
            expect=["push_java(" + U.show(env["ch"]) + ")"] + U.show_conds(loop_cond), got=[H.render(pj)] + U.show_conds(c),
            detail="every char of the descriptor is copied, unconditionally, inside `while let Some((_, ch)) = iter.next()`")
-    seg = loop_cond + [("if", U.parse(sm["segment_condition"], env), True), ("letelse", U.parse(sm["guard"], env), True)]
+    seg = loop_cond + [U.cond("if", U.parse(sm["segment_condition"], env), True), ("letelse", U.parse(sm["guard"], env), True)]
     mapped = U.parse(sm["mapped"], env)
     c = U.cond_terms(nz, root, pjs)
     R.inst(rid, "segment-condition", c == seg, sp=pjs["sp"], expect=U.show_conds(seg), got=U.show_conds(c),
@@ -401,7 +355,7 @@ def r06_4(q, R, spec):
     lets = [n for n in H.walk(root) if n.get("k") == "let" and "els" in n and nz.term(n["init"]) == U.parse(sm["guard"], env)]
     R.inst(rid, "malformed-is-error", len(lets) == 1 and H.is_err_exit(lets[0]["els"]), sp=(lets[0]["sp"] if lets else b["sp"]),
            detail="`L;` or a missing `;` makes map_desc return Err instead of guessing")
-    R.inst(rid, "result", res == U.parse(sm["result"], env) and not _returns(root), sp=b["sp"])
+    R.inst(rid, "result", res == U.parse(sm["result"], env), sp=b["sp"])
     R.floor(rid, 7)
 
 
@@ -435,13 +389,10 @@ def r06_5(q, R, spec):
     if R.anchor(rid, "fn Namespace::new", nb) and R.anchor(rid, "Namespace::new parameters", len(nb["params"]) == 1, nb["sp"]):
         nz = U.Norm(nb, sn["new_params"])
         env = U.build_env(sn["new_params"])
-        ctor = [n for b, n in sites if b is nb]
-        conds = U.cond_terms(nz, nb["body"], ctor[0]) if len(ctor) == 1 else []
-        guard = U.parse(sn["new_refuses"], env)
-        ok = (len(ctor) == 1 and U.result_term(nz) == U.parse(sn["new_result"], env)
-              and any(kind == "if" and not pol and t == guard for kind, t, pol in conds))
-        R.inst(rid, "Namespace::new:bound-check", ok, sp=nb["sp"], expect="!if " + U.show(guard), got=U.show_conds(conds),
-               detail="id >= N is refused before Namespace(id) is built")
+        want = U.parse(sn["new_value"], env)
+        act = U.result_term(nz)
+        R.inst(rid, "Namespace::new:bound-check", act == want, sp=nb["sp"], expect=U.show(want), got=U.show(act) if act else None,
+               detail="id >= N is refused; otherwise Namespace(id)")
     R.inst(rid, "field-not-public", vis != "Public", sp=adt.get("sp"), got=vis,
            detail="the index field must not be writable from outside the crate")
     R.floor(rid, 4)
